@@ -17,7 +17,7 @@ ASSUMPTIONS = ["pre-emptive thread switches inside one line step are outside the
 
 def bounds(tier):
     return {"quick": "matcher histories x keyword roles (en/fr) x <=1 symbolic char; 3 document histories x 3 families; nested schedules i<=9, j<=6; kind-level reuse every 4th prefix; compile histories (rules)",
-            "thorough": "all families x all histories, <=2 symbolic chars, every prefix"}[tier]
+            "thorough": "all families x all histories (text pieces <= 1 char), matcher histories with <= 1-2 symbolic chars, every prefix"}[tier]
 
 
 def conditions(tier):
